@@ -499,6 +499,7 @@ func c18Extra(r *Run, rng *Rng) {
 	c18Dvbs(r, rng, mul)
 	c18Cfrs(r, rng, mul)
 	c18Pmgs(r, rng, mul)
+	c18Hfss(r, rng, mul)
 	c18ProtHistories(r, rng, thorough)
 	c18Lap(r, "protection")
 	c18DefinedNames(r, rng, mul)
